@@ -49,12 +49,66 @@ def real_api(inv, routes, extra_roots):
         "dependants": [[c, sorted(er.dependants(c))] for c in sorted(set(comps) | set(extra_roots))],
         "routes": [sorted([b, sorted([q, v] for q, v in ch.items())] for b, ch in er.route(r["src"], dict((p, v) for p, v in r["changes"])).items()) for r in routes],
     }
-    # the router's defaultdict grows when route() touches unknown sources: not observable API
+    # the same connections handed over as a Wiring in other, equally valid shapes must give the same router:
+    # (a) the Wiring derived from the inverse wiring, (b) only sources as keys (sinks appear as wire targets only),
+    # (c) with additional declared-but-unwired output ports (empty sets) on components that also have a wired port,
+    # (d) a second router built on a Wiring object that an earlier router has already routed through
+    def api(r):
+        cs = sorted(r.components)
+        return {"components": cs, "inputs": sorted(r.input_components), "outputs": sorted(r.output_components),
+                "tree": sorted([c, sorted(v)] for c, v in r.component_tree.items() if v),
+                "dependants": [[c, sorted(r.dependants(c))] for c in sorted(set(comps) | set(extra_roots))],
+                "routes": [sorted([b, sorted([q, v] for q, v in ch.items())] for b, ch in r.route(x["src"], dict((p, v) for p, v in x["changes"])).items()) for x in routes]}
+    base = dict(api(er))
+
+    def wiring_dict(only_sources, empty_ports):
+        d = {}
+        for b_, ports in inv.items():
+            if not only_sources:
+                d.setdefault(b_, {})
+            for q, s_ in ports.items():
+                d.setdefault(s_[0], {}).setdefault(s_[1], set()).add(ComponentPort(b_, q))
+        if empty_ports:
+            for a_ in list(d):
+                if any(d[a_].values()):
+                    d[a_]["unwired-port"] = set()
+        return d
+    variants = {"wiring": lambda: EventRouter(w),
+                "sources-only": lambda: EventRouter(Wiring(wiring_dict(True, False))),
+                "empty-ports": lambda: EventRouter(Wiring(wiring_dict(False, True))),
+                }
+    shape = []
+    for nm, mk_ in variants.items():
+        try:
+            got = api(mk_())
+        except Exception as e:
+            shape.append([nm, "raised", f"{type(e).__name__}:{e}"])
+            continue
+        # (which components count as "output components" depends on the declared ports, wired or not: not compared;
+        #  in the sources-only form components without any wire are not mentioned at all, so `components` is not compared there)
+        for k_ in ("inputs", "tree", "dependants", "routes") + (("components",) if nm != "sources-only" else ()):
+            if got[k_] != base[k_]:
+                shape.append([nm, k_, f"{got[k_]} vs {base[k_]}"[:300]])
+                break
+    try:
+        shared = Wiring(wiring_dict(False, False))
+        r1 = EventRouter(shared)
+        api(r1)                      # routes through it (may touch unwired ports)
+        got = api(EventRouter(shared))
+        for k_ in ("components", "inputs", "tree", "dependants", "routes"):
+            if got[k_] != base[k_]:
+                shape.append(["second-router-on-routed-wiring", k_, f"{got[k_]} vs {base[k_]}"[:300]])
+                break
+    except Exception as e:
+        shape.append(["second-router-on-routed-wiring", "raised", f"{type(e).__name__}:{e}"])
+    out["shape"] = shape
     return out
 
 
 def monitor(inv, real, routes):
     vs = []
+    for nm, k, d in real.get("shape", []):
+        vs.append(V("router-depends-on-wiring-shape", f"router built from the {nm} form of the same connections: {k}: {d}", site=k))
     declared = sorted(f"{s[0]}:{s[1]}>{b}:{q}" for b, ports in inv.items() for q, s in ports.items())
     for k in ("conns", "inv_conns", "rt_conns"):
         if real[k] != declared:
@@ -151,7 +205,7 @@ def run(tier, seed, drv):
             nconn = sum(len(p) for p in c["inv"].values())
             res.case(str(c["inv"]), nontrivial=nconn > 0, sample={"inverse_wiring": {k: {q: list(s) for q, s in v.items()} for k, v in c["inv"].items()}, "model_dependants": rep.get("dependants")})
             res.count(f"conns={min(nconn, 6)}")
-            for k in real:
+            for k in (x for x in real if x != "shape"):
                 if real[k] != rep.get(k):
                     res.diverge(f"router.{k}: impl {real[k]} model {rep.get(k)}", {"inv": {a: {q: list(s) for q, s in v.items()} for a, v in c["inv"].items()}, "routes": c["routes"], "extra_roots": c["extra_roots"]})
                     break
